@@ -152,11 +152,13 @@ func (c *consumer) Chan() <-chan common.Message {
 		c.ch = make(chan common.Message, 4)
 		if c.f != nil {
 			c.f.Active.Add(1)
+			c.f.track(c, true)
 		}
 		go func() {
 			defer func() {
 				if c.f != nil {
 					c.f.Active.Add(-1)
+					c.f.track(c, false)
 				}
 			}()
 			for {
@@ -219,6 +221,32 @@ type Factory struct {
 	fenced     atomic.Bool
 	Subscribes atomic.Int64 // consumers ever created
 	Active     atomic.Int64 // consumer pump goroutines alive
+	openMu     sync.Mutex
+	open       map[*consumer]bool
+}
+
+// Open lists topic/subscription of the consumers whose pump is alive.
+func (f *Factory) Open() []string {
+	f.openMu.Lock()
+	defer f.openMu.Unlock()
+	var r []string
+	for c := range f.open {
+		r = append(r, c.topic+"/"+c.sub)
+	}
+	return r
+}
+
+func (f *Factory) track(c *consumer, on bool) {
+	f.openMu.Lock()
+	defer f.openMu.Unlock()
+	if f.open == nil {
+		f.open = map[*consumer]bool{}
+	}
+	if on {
+		f.open[c] = true
+	} else {
+		delete(f.open, c)
+	}
 }
 
 func NewFactory(b *Broker) *Factory { return &Factory{B: b} }
